@@ -1,8 +1,8 @@
 package main
 
 import (
-	"go/token"
 	"fmt"
+	"go/token"
 	"go/types"
 	"strings"
 
@@ -37,6 +37,61 @@ func runC07(p *Prog, r *Report) {
 	r.Min("C07.R4", 6)
 	r.Min("C07.R5", 5)
 	r.Min("C07.R6", 1)
+	// R4 (addition): the number of builders is the number asked for: constructors of the pipeline stages
+	// store their integer parameters unchanged (a count reduced by one starts no builder at all for 1)
+	{
+		n := 0
+		for _, fn := range p.SrcFuncs() {
+			if (fn.Pkg != p.SPkg("pkg/scan") && fn.Pkg != p.SPkg("pkg/packet")) || fn.Parent() != nil || fn.Signature.Recv() != nil || !strings.HasPrefix(fn.Name(), "New") {
+				continue
+			}
+			for _, b := range fn.Blocks {
+				for _, in := range b.Instrs {
+					st, ok := in.(*ssa.Store)
+					if !ok {
+						continue
+					}
+					fa, isFA := st.Addr.(*ssa.FieldAddr)
+					if !isFA {
+						continue
+					}
+					if bt, isB := st.Val.Type().Underlying().(*types.Basic); !isB || bt.Info()&types.IsInteger == 0 {
+						continue
+					}
+					// derives from a parameter?
+					var prm *ssa.Parameter
+					var walk func(v ssa.Value, d int) bool
+					walk = func(v ssa.Value, d int) bool {
+						if d > 6 {
+							return false
+						}
+						switch t := v.(type) {
+						case *ssa.Parameter:
+							prm = t
+							return true
+						case *ssa.BinOp:
+							return walk(t.X, d+1) || walk(t.Y, d+1)
+						case *ssa.Convert:
+							return walk(t.X, d+1)
+						case *ssa.UnOp:
+							return walk(t.X, d+1)
+						}
+						return false
+					}
+					if !walk(st.Val, 0) {
+						continue
+					}
+					n++
+					_, direct := st.Val.(*ssa.Parameter)
+					r.Check(direct, "C07.R4", FuncName(fn)+"/stores-"+fieldName(fa.X.Type(), fa.Field)+"-unchanged", p.Pos(st.Pos()), "the constructor stores its integer parameter "+prm.Name()+" unchanged", "stored value is "+(*Seg)(nil).term(st.Val, 0))
+				}
+			}
+		}
+		if n == 0 {
+			r.Viol("C07.R4", "constructor parameters", "-", "the multi-generator constructor stores its worker count", "no integer parameter stored by a New* constructor")
+		}
+	}
+	checkNoGlobalWrites(p, r, "C07.R5", "pkg/scan", "pkg/packet", "pkg/scan/tcp", "pkg/scan/udp", "pkg/scan/icmp", "pkg/scan/arp")
 	// (a) packet builder: goroutine with a loop calling PacketFiller.Fill
 	var builders []*ssa.Function
 	for _, fn := range p.LoopFuncsCalling(func(c *ssa.CallCommon) bool { return IsCallTo(c, fnFill) }) {
